@@ -145,8 +145,8 @@ type Run struct {
 	// Known finding "ooo-block-merged-raises-restart-bound": ULIDs of blocks that carry the
 	// out-of-order hint or descend from one; riskBound is the largest MaxTime of a block without
 	// the hint that descends from an out-of-order block.
-	oooULIDs  map[string]bool
-	riskBound int64
+	oooULIDs    map[string]bool
+	riskBound   int64
 	headDeleted map[int]map[int64]int
 	// Known finding "snapshot-restart-reissues-series-ref": createdThisSession lists series that
 	// got a ref since the last open; ghostAtReopen is set when, with snapshot-on-shutdown, the
@@ -159,17 +159,17 @@ type Run struct {
 	createdThisSession map[int]bool
 	ghostAtReopen      bool
 	SnapRefRisk        bool
-	everCreated map[int]bool
-	dupStage    map[int]int
-	deletedRanges map[int][][2]int64
-	hiddenCands   map[int]map[int64]bool
-	failMissing   bool
+	everCreated        map[int]bool
+	dupStage           map[int]int
+	deletedRanges      map[int][][2]int64
+	hiddenCands        map[int]map[int64]bool
+	failMissing        bool
 	failT              int64
 	failExtra          bool
-	creator         map[int]int
-	established     map[int]bool
-	tainted         map[int]bool
-	taintedReopened map[int]bool
+	creator            map[int]int
+	established        map[int]bool
+	tainted            map[int]bool
+	taintedReopened    map[int]bool
 }
 
 // SigDeleteOOO names the known finding about deletes not reaching the out-of-order head.
@@ -631,30 +631,7 @@ func (r *Run) exec(op Op) error {
 		if r.AttributionOnly {
 			return nil
 		}
-		sel := op.Sel
-		if sel == nil {
-			for i := range r.M.Series {
-				sel = append(sel, i)
-			}
-		}
-		for _, si := range sel {
-			r.deletedRanges[si] = append(r.deletedRanges[si], [2]int64{op.Mint, op.Maxt})
-			for t, p := range r.M.Series[si].Pts {
-				if !p.OOOHead && t >= op.Mint && t <= op.Maxt && t >= r.M.Head.MinValid {
-					if r.headDeleted[si] == nil {
-						r.headDeleted[si] = map[int64]int{}
-					}
-					r.headDeleted[si][t] = 1
-				}
-				if (p.OOOHead || p.WasOOO) && t >= op.Mint && t <= op.Maxt {
-					if r.oooDeleteSurvivors[si] == nil {
-						r.oooDeleteSurvivors[si] = map[int64]bool{}
-					}
-					r.oooDeleteSurvivors[si][t] = true
-					r.Did["delete-over-ooo-head"]++
-				}
-			}
-		}
+		sel := r.noteDelete(op)
 		r.M.Delete(sel, op.Mint, op.Maxt)
 	case "compact":
 		if len(r.Apps) > 0 {
@@ -808,6 +785,146 @@ func (r *Run) exec(op Op) error {
 		}
 	case "query":
 		return r.CheckQuery(op.Mint, op.Maxt, op.Sel)
+	}
+	return nil
+}
+
+// noteDelete does the known-finding bookkeeping of a delete and returns the selected series.
+func (r *Run) noteDelete(op Op) []int {
+	sel := op.Sel
+	if sel == nil {
+		for i := range r.M.Series {
+			sel = append(sel, i)
+		}
+	}
+	for _, si := range sel {
+		r.deletedRanges[si] = append(r.deletedRanges[si], [2]int64{op.Mint, op.Maxt})
+		for t, p := range r.M.Series[si].Pts {
+			if !p.OOOHead && t >= op.Mint && t <= op.Maxt && t >= r.M.Head.MinValid {
+				if r.headDeleted[si] == nil {
+					r.headDeleted[si] = map[int64]int{}
+				}
+				r.headDeleted[si][t] = 1
+			}
+			if (p.OOOHead || p.WasOOO) && t >= op.Mint && t <= op.Maxt {
+				if r.oooDeleteSurvivors[si] == nil {
+					r.oooDeleteSurvivors[si] = map[int64]bool{}
+				}
+				r.oooDeleteSurvivors[si][t] = true
+				r.Did["delete-over-ooo-head"]++
+			}
+		}
+	}
+	return sel
+}
+
+// classify maps the failure of the last whole-database comparison to the signature of a listed
+// finding where the run's bookkeeping attributes the failing (series, t) to one.
+func (r *Run) classify(opK string, err error) error {
+	if sig := r.commitSigs[r.failSeries]; opK == "commit" && sig != "" {
+		return ev.FailSig(sig, "%s", err.Error())
+	}
+	if r.failExtra && r.oooDeleteSurvivors[r.failSeries][r.failT] {
+		return ev.FailSig(SigDeleteOOO, "%s", err.Error())
+	}
+	if r.failMissing && r.hiddenCands[r.failSeries][r.failT] {
+		return ev.FailSig(SigDeleteHidesLater, "%s", err.Error())
+	}
+	if r.failExtra && r.headDeleted[r.failSeries][r.failT] == 3 {
+		return ev.FailSig(SigHeadDeleteLost, "%s", err.Error())
+	}
+	if r.failMissing && (opK == "reopen" || opK == "crashreopen") && r.failT < r.riskBound {
+		if p := r.M.Series[r.failSeries].Pts[r.failT]; p != nil && !p.WasOOO {
+			return ev.FailSig(SigMixedBound, "%s", err.Error())
+		}
+	}
+	if r.failMissing && r.dupStage[r.failSeries] == 4 {
+		if p := r.M.Series[r.failSeries].Pts[r.failT]; p != nil && p.OOOHead {
+			return ev.FailSig(SigWBLOrphan, "%s", err.Error())
+		}
+	}
+	if r.taintedReopened[r.failSeries] {
+		return ev.FailSig(SigSeriesRecordOrder, "%s", err.Error())
+	}
+	return err
+}
+
+// CheckAll compares the whole database with the model; a failure that the bookkeeping
+// attributes to a listed finding carries that finding's signature.
+func (r *Run) CheckAll(opK string) error {
+	r.failSeries, r.failExtra, r.failMissing = -1, false, false
+	if err := r.CheckQuery(math.MinInt64, math.MaxInt64, nil); err != nil {
+		return r.classify(opK, err)
+	}
+	return nil
+}
+
+// AdoptCrashed replaces the live database of a run that executed the acknowledged prefix of a
+// history by dir, the directory a process left behind when it was killed while executing the
+// same prefix followed by inflight (nil: killed between operations). The model is relaxed by
+// what the operation in flight may or may not have made durable: the samples of a commit in
+// flight become optional, the samples covered by a delete in flight become optional; every
+// other operation leaves the stored data unchanged.
+func (r *Run) AdoptCrashed(dir string, inflight *Op) error {
+	if inflight != nil && !r.AttributionOnly {
+		switch inflight.K {
+		case "commit":
+			if a := r.Apps[inflight.A]; a != nil {
+				r.noteClose(inflight.A, a.model.Pending)
+				for _, p := range a.model.Pending {
+					r.M.Series[p.S].StoreOptional(p.T, p.V)
+				}
+			}
+		case "delete":
+			if len(r.Apps) == 0 {
+				for _, si := range r.noteDelete(*inflight) {
+					for t, p := range r.M.Series[si].Pts {
+						if t >= inflight.Mint && t <= inflight.Maxt {
+							p.Required = false
+						}
+					}
+				}
+			}
+		case "compact", "flush", "compactooo", "evictstale", "evictsel":
+			// the head compaction in flight may have completed its checkpoint
+			r.noteCheckpoint()
+		}
+	}
+	for _, a := range r.Apps {
+		if a.v1 != nil {
+			_ = a.v1.Rollback()
+		}
+		if a.v2 != nil {
+			_ = a.v2.Rollback()
+		}
+	}
+	r.Apps = map[int]*appState{}
+	if r.DB != nil {
+		_ = r.DB.Close()
+	}
+	os.RemoveAll(r.Dir)
+	r.Dir, r.DB = dir, nil
+	desc := "none"
+	if inflight != nil {
+		desc = inflight.K
+	}
+	r.Trace = append(r.Trace, "process killed (operation in flight: "+desc+")")
+	if err := r.open(); err != nil {
+		return err
+	}
+	amv, _ := r.DB.Head().AppendableMinValidTime()
+	r.Trace = append(r.Trace, fmt.Sprintf("tsdb.Open; head min=%d max=%d appendableMinValid=%d; blocks %s", r.DB.Head().MinTime(), r.DB.Head().MaxTime(), amv, r.blocksString()))
+	r.createdThisSession = map[int]bool{}
+	r.noteHeadDeleted(2, 3)
+	for s, st := range r.dupStage {
+		if st == 1 || st == 3 {
+			r.dupStage[s] = st + 1
+		}
+	}
+	r.M.Restarted(r.DB.Head().MinTime() != math.MaxInt64, r.inOrderBlocksMaxT())
+	r.noteGC()
+	for s := range r.tainted {
+		r.taintedReopened[s] = true
 	}
 	return nil
 }
@@ -1170,32 +1287,7 @@ func RunAll(h History, rec *ev.Rec, setup func(r *Run)) (*Run, error) {
 			if len(r.Apps) == 0 || op.K == "commit" {
 				r.failSeries, r.failExtra, r.failMissing = -1, false, false
 				if err := r.CheckQuery(math.MinInt64, math.MaxInt64, nil); err != nil {
-					if sig := r.commitSigs[r.failSeries]; op.K == "commit" && sig != "" {
-						return r, ev.FailSig(sig, "%s", err.Error())
-					}
-					if r.failExtra && r.oooDeleteSurvivors[r.failSeries][r.failT] {
-						return r, ev.FailSig(SigDeleteOOO, "%s", err.Error())
-					}
-					if r.failMissing && r.hiddenCands[r.failSeries][r.failT] {
-						return r, ev.FailSig(SigDeleteHidesLater, "%s", err.Error())
-					}
-					if r.failExtra && r.headDeleted[r.failSeries][r.failT] == 3 {
-						return r, ev.FailSig(SigHeadDeleteLost, "%s", err.Error())
-					}
-					if r.failMissing && (op.K == "reopen" || op.K == "crashreopen") && r.failT < r.riskBound {
-						if p := r.M.Series[r.failSeries].Pts[r.failT]; p != nil && !p.WasOOO {
-							return r, ev.FailSig(SigMixedBound, "%s", err.Error())
-						}
-					}
-					if r.failMissing && r.dupStage[r.failSeries] == 4 {
-						if p := r.M.Series[r.failSeries].Pts[r.failT]; p != nil && p.OOOHead {
-							return r, ev.FailSig(SigWBLOrphan, "%s", err.Error())
-						}
-					}
-					if r.taintedReopened[r.failSeries] {
-						return r, ev.FailSig(SigSeriesRecordOrder, "%s", err.Error())
-					}
-					return r, err
+					return r, r.classify(op.K, err)
 				}
 			}
 		}
